@@ -16,7 +16,7 @@ DECIDES = ('every multi-direction subscript of a canonical flat array in the pac
            'extract_curves, extract_surfaces (3 planes) and transpose induce a single-valued map target direction -> source direction through '
            'net positions, sizes, degrees and knot vectors (AX4) and their final flat list has the declared extents in canonical order (LY3); '
            'sizes are passed to set_ctrlpts in (u, v, w) order everywhere (LY3p); flip is the full reversal applied to the stored view (FL1); '
-           'sweep_vector passes (input, translate) in this order along a direction whose degree admits two sections (AG8). the 2-D grid view is filled with the point lists of the object\'s own flat array - nothing that may alias an argument is stored in either view (ES1, may-alias analysis), so ctrlpts2d[u][v] and ctrlpts[v + Sv*u] stay one object. insert / remove / refine are additionally decided on abstract nets (OPS2, see C04-C06), so the symbolic rules cannot raise an alarm on a re-spelling of these three functions that OPS2 accepts.')
+           'sweep_vector passes (input, translate) in this order along a direction whose degree admits two sections (AG8). the 2-D grid view is filled with the point lists of the object\'s own flat array - nothing that may alias an argument is stored in either view (ES1, may-alias analysis), so ctrlpts2d[u][v] and ctrlpts[v + Sv*u] stay one object. insert / remove / refine are additionally decided on abstract nets (OPS2, see C04-C06), so the symbolic rules cannot raise an alarm on a re-spelling of these three functions that OPS2 accepts. the control point managers return the canonical flat index for every position of a box of pairwise different sizes (MG2, integer-exact interpretation, whichever class of the hierarchy implements find_index).')
 NOT_DECIDED = 'that reconstruction evaluates identically also needs C01; nothing structural is left out on the listed functions. Functions the interpreter cannot resolve are reported as notes, never as passes of a claimed obligation.'
 TECHNIQUE = 'abstract interpretation of list layouts over symbolic sizes (polynomial extents, direction labels), stride rule, axis-map coherence'
 
@@ -42,7 +42,7 @@ def check(m, run):
     ops_funcs = [fi for fi in funcs if fi.key in OPSF]
     other = [fi for fi in funcs if fi.key not in OPSF]
     summ, contracts = layout.flip_summaries(m)
-    with run.corroborating(sem_ok, 'OPS2'):
+    with run.corroborating(sem_ok, 'OPS2', rules=('LY1.canonical-stride', 'LY3.sizes-in-axis-order', 'LY1.index-matches-layout', 'LY3.list-matches-declared-sizes', 'AX4.axis-map-single-valued')):
         rl.ly1_canonical(m, run, ops_funcs)
         ra.ly3_positional_sizes(m, run, ops_funcs)
         for f in ('insert_knot', 'remove_knot', 'refine_knotvector'):
@@ -52,8 +52,13 @@ def check(m, run):
 
 def _check_syntactic(m, run, funcs, summ, contracts):
     n = rl.ly1_canonical(m, run, funcs)
-    for c in ('SurfaceManager', 'VolumeManager'):
-        rl.ly1_index_formula(m, run, m.func('control_points.%s.find_index' % c), 'self')
+    from .. import skel_drivers as _sd
+    n1 = len(run.obs)
+    _sd.mg2(m, run)
+    mg_ok = all(o.ok for o in run.obs[n1:])
+    with run.corroborating(mg_ok, 'MG2', rules=('LY1.index-matches-layout',)):
+        for c in ('SurfaceManager', 'VolumeManager'):
+            rl.ly1_index_formula(m, run, m.func('control_points.%s.find_index' % c), 'self')
     run.floor('LY1.canonical-stride', 27, 'canonical stride sites of the pinned tree')
     ra.ly3_positional_sizes(m, run, funcs)
     run.floor('LY3.sizes-in-axis-order', 50, 'set_ctrlpts call sites with per-direction sizes')
@@ -64,6 +69,11 @@ def _check_syntactic(m, run, funcs, summ, contracts):
                'the body accepts a %s list, the documented contract is %s' % (accepts, DOC_CONTRACT[name]), site(m.func('compatibility.' + name)))
     ld.construct_rules(m, run, summ)
     ld.extract_rules(m, run, summ)
+    n2 = len(run.obs)
+    _sd.ex2(m, run)
+    ex_ok = all(o.ok for o in run.obs[n2:])
+    with run.corroborating(ex_ok, 'EX2', rules=('AX4.axis-map-single-valued', 'LY1.index-matches-layout')):
+        ld.extract_curves_rules(m, run, summ)
     grid_view(m, run, summ)
     from . import c09
     c09.no_escape(m, run)     # the 2-D grid view holds the very point lists of the flat array (never the caller's): edits through one view reach the other
